@@ -104,8 +104,8 @@ Qed.
 (* ---- transfer cases: finite sweep over the environment record ---- *)
 Lemma holds_xfer fuel e : with_sock e = true -> with_file e = true -> holds (Xfer e) (run_model_f fuel (Xfer e)) = [].
 Proof.
-  destruct e as [so hr ts xe se ws wf]; cbn [with_sock with_file]. intros -> ->.
-  destruct so, hr, ts, xe, se; reflexivity.
+  destruct e as [so hr ts xe se cf ws wf]; cbn [with_sock with_file]. intros -> ->.
+  destruct so, hr, ts, xe, se, cf; reflexivity.
 Qed.
 
 Theorem holds_model_f fuel c : valid_f fuel c -> holds c (run_model_f fuel c) = [].
